@@ -120,6 +120,10 @@ def run(repo, rep, tier):
     _cache_scope(repo, rep, func, res, steps)
     _tables(repo, rep, func)
     _parsers(repo, rep)
+    # (C09 owns the element details)
+    from . import c09 as _c09
+    L.borrow(repo, rep, "R01.8", "C09", _c09.element_details,
+             ("decode-which", "attrs-alias-first"))
     L.state_rule(repo, rep)
 
 
